@@ -64,6 +64,7 @@ func init() {
 type canonTok struct {
 	s   string
 	pos token.Pos
+	fn  *types.Func // set for identifiers naming a package-level function
 }
 
 func canonBody(info *types.Info, fd *ast.FuncDecl, names map[string]string, mirrored bool) []canonTok {
@@ -84,7 +85,7 @@ func canonBody(info *types.Info, fd *ast.FuncDecl, names map[string]string, mirr
 	}
 	local := map[types.Object]string{}
 	var out []canonTok
-	emit := func(s string, p token.Pos) { out = append(out, canonTok{s, p}) }
+	emit := func(s string, p token.Pos) { out = append(out, canonTok{s: s, pos: p}) }
 	// receiver, parameters and results are locals too
 	var visit func(n ast.Node) bool
 	visit = func(n ast.Node) bool {
@@ -109,6 +110,9 @@ func canonBody(info *types.Info, fd *ast.FuncDecl, names map[string]string, mirr
 				return false
 			}
 			emit(mapName(x.Name), x.Pos())
+			if f, ok := obj.(*types.Func); ok && f.Type().(*types.Signature).Recv() == nil {
+				out[len(out)-1].fn = f
+			}
 			return false
 		case *ast.BasicLit:
 			if x.Kind == token.STRING {
@@ -170,6 +174,34 @@ func canonBody(info *types.Info, fd *ast.FuncDecl, names map[string]string, mirr
 	return out
 }
 
+// mirrorDiverge returns the first index at which the two canonical sequences
+// differ (len of both when they agree). Two different package-level helper
+// functions at the same position count as equal when they are themselves mirror
+// images of each other under the pair's map (a block extracted on both sides).
+func mirrorDiverge(c *Ctx, info *types.Info, p mirrorPair, ta, tb []canonTok, depth int) int {
+	i := 0
+	for i < len(ta) && i < len(tb) {
+		if ta[i].s != tb[i].s {
+			if depth < 3 && ta[i].fn != nil && tb[i].fn != nil && ta[i].fn.Pkg() == tb[i].fn.Pkg() {
+				da, db := c.Decl(p.Pkg, ta[i].fn.Name()), c.Decl(p.Pkg, tb[i].fn.Name())
+				if da != nil && db != nil {
+					ha, hb := canonBody(info, da, p.Names, true), canonBody(info, db, p.Names, false)
+					if j := mirrorDiverge(c, info, p, ha, hb, depth+1); j == len(ha) && j == len(hb) {
+						i++
+						continue
+					}
+				}
+			}
+			return i
+		}
+		i++
+	}
+	if i == len(ta) && i == len(tb) {
+		return i
+	}
+	return i
+}
+
 func runMirror(rr *RuleRun, prop string) {
 	c := rr.Ctx
 	for _, p := range mirrorPairs {
@@ -184,10 +216,7 @@ func runMirror(rr *RuleRun, prop string) {
 		ta := canonBody(info, fa, p.Names, true)
 		tb := canonBody(info, fb, p.Names, false)
 		key := p.Pkg + "." + p.A + "~" + strings.TrimPrefix(p.B, strings.SplitN(p.A, ".", 2)[0]+".")
-		i := 0
-		for i < len(ta) && i < len(tb) && ta[i].s == tb[i].s {
-			i++
-		}
+		i := mirrorDiverge(c, info, p, ta, tb, 0)
 		if i == len(ta) && i == len(tb) {
 			rr.OK(key, fa.Pos(), fmt.Sprintf("mirror images agree on %d canonical tokens", len(ta)))
 			continue
